@@ -87,6 +87,9 @@ LINKS = [
     ("[[stack:wipe]]", "stack", None, "wipe", None), ("[[stack:wipe(final)]]", "stack", None, "wipe", "final"),
     ("[[stack(type):wipe(final)]]", "stack", "type", "wipe", "final"), ("[[wipe]]", "wipe", None, None, None),
     ("[[mod_a:wipe]]", "mod_a", None, "wipe", None),
+    # `procedure` / `proc` name procedures of the project, also from the documentation of a type that has a binding of that name
+    ("[[push(procedure)]]", "push", "procedure", None, None), ("[[push(proc)]]", "push", "proc", None, None),
+    ("[[push(subroutine)]]", "push", "subroutine", None, None), ("[[wipe(procedure)]]", "wipe", "procedure", None, None),
 ]
 
 
